@@ -371,9 +371,7 @@ theorem loopRead_tr (s : S) (item : RxItem) (ok : Bool) :
             · exact Or.inr h.1
           split
           · exact h'
-          · split
-            · split <;> exact h'
-            · exact h'
+          · split <;> exact h'
 
 theorem neutral_hresEv (r : HRes) : neutral (hresEv r) = true := by cases r <;> rfl
 
